@@ -111,9 +111,6 @@ impl Scenario for LcdBatches {
     fn name(&self) -> &'static str {
         "lcd_batches"
     }
-    fn isolated(&self) -> bool {
-        false
-    }
     fn quick_runs(&self, _f: &str) -> u64 {
         12800
     }
